@@ -287,6 +287,9 @@ def kstep_sx(st):
     if st[0] == 7:
         # an existence filter [?(@ inner)]: (7, [inner steps])
         return '7 ' + ' '.join('(%s)' % kstep_sx(x) for x in st[1])
+    if st[0] == 8:
+        # a comparison filter [?(@ inner OP number)]: (8, [inner steps], operator code 0..5, literal code points)
+        return '8 (%s) %d %s' % (' '.join('(%s)' % kstep_sx(x) for x in st[1]), st[2], ' '.join(str(x) for x in st[3]))
     if st[0] == 5:
         parts = ['5'] + ['(%s)' % ' '.join(str(x) for x in t) for t in st[1:3]]
         if st[3] is not None:
